@@ -68,7 +68,8 @@ def analyse(ctx, cfg, res, detach, what):
     if res["lock_left"]:
         ctx.violation("%s: the lock file is still there after the invocation ended" % what, info)
     failed = any(not par[n] and exits[n] != 0 for n in started)
-    want_report = (failed or has_end) and bool(started)
+    # also when every step was skipped and only `end` was reached
+    want_report = failed or has_end
     if (res["report"] is not None) != want_report:
         ctx.violation("%s: report %s, but a step failed=%s / end reached=%s" % ("exists" if res["report"] is not None else "missing", what, failed, has_end), info)
     nmail = res["mail"].count("=== sendmail")
